@@ -11,6 +11,7 @@ import (
 type Evaluator struct {
 	Vars map[string]*big.Int
 	Seed uint64
+	Mode int // default values of unassigned variables: 0 uniform, 1 sparse, 2 dense, 3 zero, 4 ones
 	memo map[int]*big.Int
 	// Default for unassigned variables: hash of name and seed
 }
@@ -104,7 +105,24 @@ func (e *Evaluator) evalNode(t *Term) *big.Int {
 		if v, ok := e.Vars[t.Name]; ok {
 			return new(big.Int).Set(v)
 		}
-		return hashBits(w, e.Seed, []byte("var"), []byte(t.Name))
+		v := hashBits(w, e.Seed, []byte("var"), []byte(t.Name))
+		switch e.Mode {
+		case 1:
+			v.And(v, hashBits(w, e.Seed+1, []byte("var"), []byte(t.Name)))
+			v.And(v, hashBits(w, e.Seed+2, []byte("var"), []byte(t.Name)))
+		case 2:
+			v.Or(v, hashBits(w, e.Seed+1, []byte("var"), []byte(t.Name)))
+			v.Or(v, hashBits(w, e.Seed+2, []byte("var"), []byte(t.Name)))
+		case 3:
+			v.SetInt64(0)
+		case 4:
+			if w == 0 {
+				v.SetInt64(1)
+			} else {
+				v.Set(bigMask(w))
+			}
+		}
+		return v
 	case OpUF:
 		parts := [][]byte{[]byte("uf"), []byte(t.Name)}
 		for i := range t.Args {
